@@ -1,6 +1,4 @@
 package main
 
-func cmdWhoIs(args []string) (map[string]interface{}, error)       { return nil, nil }
-func cmdScan(args []string) (map[string]interface{}, error)        { return nil, nil }
 func cmdRadvs(args []string) (map[string]interface{}, error)       { return nil, nil }
 func cmdRadvsWorker(args []string) (map[string]interface{}, error) { return nil, nil }
